@@ -137,6 +137,11 @@ def firstOnly (pm : List Param) : List Param :=
 /-- Final bytes of the one-parameter functions of the vocabulary. -/
 def onePs : List Nat := [64, 65, 66, 67, 68, 69, 70, 71, 74, 75, 76, 77, 80, 83, 84, 88, 96, 100]
 
+/-- Final bytes of the two-parameter functions of the vocabulary: CUP, HVP, DECSTBM. Parameters after the
+    second are ignored (ECMA-48 / DEC STD 070: a control function uses the parameters it defines; xterm does
+    the same) — round 3, finding F106d: the emulator ignored the whole sequence. -/
+def twoPs : List Nat := [72, 102, 114]
+
 /-- `tokOf`, extended: any number of parameters for the one-parameter functions; `CSI ? 25 h/l`;
     `CSI n SP q` (n ≤ 65535 — the emulator clamps a larger value). -/
 def tokOfX : EOp → Option Term.Tok
@@ -144,7 +149,9 @@ def tokOfX : EOp → Option Term.Tok
   | .csi [63, 108] [(25, [])] => some (.showCursor false)
   | .csi [32, 113] [(n, [])] => if 0 ≤ n ∧ n ≤ 65535 then some (.cursorShape n.toNat) else none
   | .csi [f] pm =>
-    if f ∈ onePs ∧ (f = 84 → pm.length ≠ 5) then tokOf (.csi [f] (firstOnly pm)) else tokOf (.csi [f] pm)
+    if f ∈ onePs ∧ (f = 84 → pm.length ≠ 5) then tokOf (.csi [f] (firstOnly pm))
+    else if f ∈ twoPs ∧ pm.length > 2 then tokOf (.csi [f] (pm.take 2))
+    else tokOf (.csi [f] pm)
   | op => tokOf op
 
 end VaxisModel.Model.EmuAbs
